@@ -20,7 +20,7 @@ import zlib
 
 from disk_objectstore import Container
 
-from ..common import REAL, ExecTimeout, time_limit
+from ..common import REAL, ExecTimeout, maybe_collect, time_limit
 from ..rawread import RawState
 from ..seqx import SeqSpec, explore
 from ..world import core_alphabet, variant_alphabet
@@ -141,6 +141,7 @@ def damage_pass(world, raw):
     try:
         for desc, cls, target, new, old in enumerate_damages(raw):
             n += 1
+            maybe_collect(200)
             if isinstance(target, tuple):
                 _, col, rowid = target
                 con.execute(f'UPDATE db_object SET {col}=? WHERE id=?', (new, rowid))
